@@ -106,6 +106,24 @@ Theorem c20_backward_faithful :
 Proof. exact backward_faithful. Qed.
 Print Assumptions c20_backward_faithful.
 
+(* is_result_valid: the thunk shows the client EVERY stored value unchanged - any length, the empty value included - and
+   hands the client's answer to the engine.  The deviation "an empty value is invalid without asking" (seeded/C20-4) differs
+   exactly on the empty value. *)
+Theorem c20_capi_valid_forwarded : forall r client v, cr_has_valid r = true -> valid_thunk r client v = client v.
+Proof. exact capi_valid_forwarded. Qed.
+Print Assumptions c20_capi_valid_forwarded.
+
+Theorem c20_capi_valid_consulted_on_empty : forall e ec key r,
+  cr_has_valid r = true ->
+  option_map view (backward e (BIsResultValid (wrap_rule ec key r) [])) = Some (VIsResultValid (cr_context r) ec (cr_context r) []).
+Proof. exact capi_valid_consulted_on_empty. Qed.
+Print Assumptions c20_capi_valid_consulted_on_empty.
+
+Theorem c20_valid_skip_empty_refuted :
+  exists r client v, cr_has_valid r = true /\ valid_thunk_skip_empty r client v <> client v /\ valid_thunk r client v = client v.
+Proof. exact valid_thunk_skip_empty_refuted. Qed.
+Print Assumptions c20_valid_skip_empty_refuted.
+
 Theorem c20_task_interface_roundtrip : forall t, ti_in (ti_out t) = t.
 Proof. exact ti_in_out. Qed.
 Print Assumptions c20_task_interface_roundtrip.
@@ -176,3 +194,6 @@ Example c20_instance_provide :
   option_map view (backward 3 (BProvideValue (mkCTask 4) (mkTi 1 2) 4294967296 [107; 0] [0; 255; 0]))
   = Some (VProvideValue 4 3 (mkCTi 1 2) 4294967296 [0; 255; 0]).
 Proof. exact ex_backward_provide. Qed.
+Example c20_instance_valid_empty :
+  valid_thunk (mkCRule 0 (data_of [] []) true true) (fun v => match v with [] => true | _ => false end) [] = true.
+Proof. exact ex_valid_empty_asked. Qed.
